@@ -222,4 +222,65 @@ theorem toU_nonneg (bits : Nat) (x : Int) : 0 ≤ toU bits x := by
 theorem toU_lt (bits : Nat) (x : Int) : toU bits x < (2 ^ bits : Nat) := by
   unfold toU; exact Int.emod_lt_of_pos _ (by have := Nat.two_pow_pos bits; omega)
 
+/-! ## additions for the write side (generated struct writers, TTHeader encoder): nil pointers, nil-able interface
+    values, `range` over a map, `len(map)`, `m[k]` reads, integer division, bounded sub-slices of a local slice -/
+
+/-- `p.F` / `w.M(…)` through a pointer or interface value that may be nil -/
+def derefP {α : Type} : Option α → GM α
+  | some a => .ok a
+  | none => .panic "nilderef"
+
+/-- the behaviour of a `thrift.NocopyWriter` interface value: `WriteDirect(b, remainCap)`. A translated function that takes
+    such a parameter takes it as `Option ν` (`none` = the nil interface) together with this record. -/
+structure NocopyI (ν : Type) where
+  writeDirect : ν → Bytes → Int → GM (GoErr × ν)
+
+/-- the instance passed along with a literal `nil` writer (never called: the value is `none`) -/
+def nilNocopy : NocopyI Unit := ⟨fun s _ _ => .ok (GoErr.nil, s)⟩
+
+/-- the entries a Go map holds, given its association list (newest first): the first occurrence of every key -/
+def mapEntriesL {κ ν : Type} [BEq κ] : List (κ × ν) → List (κ × ν)
+  | [] => []
+  | e :: r => e :: (mapEntriesL r).filter (fun x => !(x.1 == e.1))
+
+def mapEntries {κ ν : Type} [BEq κ] (m : GoMap κ ν) : List (κ × ν) :=
+  match m with
+  | none => []
+  | some l => mapEntriesL l
+
+/-- `len(m)` (0 for a nil map) -/
+def mapLen {κ ν : Type} [BEq κ] (m : GoMap κ ν) : Int := ((mapEntries m).length : Int)
+
+/-- `v, ok := m[k]` (`none`: no such key; a nil map has no keys) -/
+def mapGet {κ ν : Type} [BEq κ] (m : GoMap κ ν) (k : κ) : Option ν :=
+  match m with
+  | none => none
+  | some l => l.lookup k
+
+/-- `for k, v := range m` visits every entry of `m` exactly once, in an order Go does not specify. A translated function
+    takes the sequence of visited entries as an explicit parameter `ord`; this is what Go guarantees about it. -/
+def MapOrder {κ ν : Type} [BEq κ] (m : GoMap κ ν) (ord : List (κ × ν)) : Prop := ord.Perm (mapEntries m)
+
+/-- `a / b` and `a % b` in the integer type `t`: Go truncates toward zero, a zero divisor panics (a non-zero constant
+    divisor is translated to `wrap t (Int.tdiv a c)` / `wrap t (Int.tmod a c)` directly) -/
+def goDiv (t : IT) (a b : Int) : GM Int := if b = 0 then .panic "divzero" else .ok (wrap t (Int.tdiv a b))
+def goMod (t : IT) (a b : Int) : GM Int := if b = 0 then .panic "divzero" else .ok (wrap t (Int.tmod a b))
+
+/-- `s[lo:hi]` of a slice of length `n` the function writes through: the bounds check (cap = len) -/
+def bchk (n lo hi : Int) : GM Unit :=
+  if hi < 0 ∨ hi > n then .panic "slice"
+  else if lo < 0 ∨ lo > hi then .panic "slice"
+  else .ok ()
+
+/-- `binary.BigEndian.PutUintNN(whole[off : off+n], x)`: the sub-slice has length `n` (checked like `_ = b[k-1]`) -/
+def bputU16 (whole : Bytes) (off n x : Int) : GM Bytes :=
+  if n < 2 then .panic "index" else .ok (putAt whole off.toNat (be16 (toU 16 x).toNat))
+def bputU32 (whole : Bytes) (off n x : Int) : GM Bytes :=
+  if n < 4 then .panic "index" else .ok (putAt whole off.toNat (be32 (toU 32 x).toNat))
+def bputU64 (whole : Bytes) (off n x : Int) : GM Bytes :=
+  if n < 8 then .panic "index" else .ok (putAt whole off.toNat (be64 (toU 64 x).toNat))
+
+/-- the contents of `whole[off : off+n]` (what a slice that aliases a part of `whole` holds when it is read) -/
+def bsub (whole : Bytes) (off n : Int) : Bytes := (whole.drop off.toNat).take n.toNat
+
 end Verif.GoSem
